@@ -95,7 +95,7 @@ chk("C08", "venum+vexplore",
     "Trusted: the reference decision table; directory answers come through the authutil seam (GetLDAPUserGroups).",
     "DESIGN.md 3 C08")
 
-chk("C05", "vexplore",
+chk("C05", "vexplore+vsched",
     "explicit-state breadth-first search with canonical-state deduplication over operation histories on the real handlers (successor = replay of the shortest history on a fresh instance + one operation), oracle on every transition against ground truth kept in stateful fakes and soft tokens",
     "One search per second-factor family (Symantec VIP OTP and push against a stateful fake service, local TOTP, U2F with real software tokens through the real begin/finish handlers, bootstrap OTP, CLI token), two users and three cookie jars; alphabet: password login (adversary as A, adversary as B, B's own browser), OTP with A's/B's/bad/stale/already-accepted code, push start, device approval by the owner, poll, hardware-token begin and finish with A's/B's device or a replayed assertion, bootstrap value of A/B/bad, CLI show/send, ticks and a cleanup sweep; in its jars the adversary attaches every cookie and push cookie it ever obtained. After every transition each auth cookie set by the server is decoded: its subject must be the carried cookie's subject and every gained factor bit must be justified by ground truth (owner of the code/push/device/value, first use, freshness). Depth 4-5 quick, +1 thorough; states, transitions and depth per family are in the evidence.",
     "Trusted: the fakes' ground truth; WebAuthn/FIDO2 (CBOR) and Okta flows are not driven; more than two users / deeper histories are outside the bound.",
@@ -134,24 +134,24 @@ chk("C09", "venum+vsched",
 # what the three rounds of independently seeded changes added (see seeded/README.md)
 ADDENDA = {
  "C01": " Added after seeding: multi-credential requests (7 primary credentials x every cookie shape, both cookie orders), role certificates from a loopback peer with forwarding headers, IP-restricted certificates issued by the operator's client CA and for netblocks not ending on an octet boundary, an unsorted multi-entry key deny list, and the decision product behind configuration FILES loaded with the real loadVerifyConfigFile. Round 5: foreign-second-factor sequences (another user's second factor proved on a request that also carries the victim's password-only cookie; whatever cookie comes back is tried on the victim's certificate route); user certificates that expired after the TLS handshake on a kept-alive connection.",
- "C02": " Added after seeding: deployments with the user-name filter (names typed as name@Domain). Round 5: entry dimension (login form + cookie, or basic-auth on the certificate request itself).",
+ "C02": " Added after seeding: deployments with the user-name filter (names typed as name@Domain). Round 5: entry dimension (login form + cookie, or basic-auth on the certificate request itself). Round 7: operator extensions with empty values.",
  "C03": " Added after seeding: IP-restricted certificates issued by the operator's own client CA (inside, aged, outside), and refreshes of such certificates with lifetimes from 1 h to 20 years. Round 5: cookies upgraded by a real TOTP verification 1 h / 10 h / ~16 h after login. Round 6: every issuing path (incl. the cloud-role path) with the daemon's local zone set to UTC / Europe/Berlin / America/New_York / Australia/Lord_Howe at 5 instants around every DST transition of the next 400 days.",
  "C04": " Added after seeding: a 14th consumer, the level upgrade reached under client-certificate authentication; history-dependent violations (state carried between requests) are confirmed by re-running their enumeration shard; two sibling servers without configured host_identity that trust each other's keys. Round 5: storage records re-signed with the real key whose subject is another user, a case twin, upper-cased, a prefix or empty. Round 6: genuine artefact of another user on consumers that bind the subject; refusals scanned for freshly signed session material (wire headers and body).",
- "C05": " Added after seeding: requests carrying two session cookies of different users in either order, a next-step TOTP code, a primary store that answers reads but refuses writes; the canonical state records which code was spent; case-twin users with normalisation disabled; the real clean-up pass as an operation. Round 5: the WebAuthn login ceremony (begin / finish with a soft token) as operations of the u2f family.",
+ "C05": " Added after seeding: requests carrying two session cookies of different users in either order, a next-step TOTP code, a primary store that answers reads but refuses writes; the canonical state records which code was spent; case-twin users with normalisation disabled; the real clean-up pass as an operation. Round 5: the WebAuthn login ceremony (begin / finish with a soft token) as operations of the u2f family. Round 7: part C05S (controlled scheduler, engine vsched): VIP push starts of two users as threads.",
  "C06": " Added after seeding: look-alike foreign origins (host.evil, evil-host, host@evil) as Origin and Referer, loopback-peer forwarding headers, non-octet netblocks, operator-CA IP certificates, unsorted deny list; a session token in a response must name the admitted identity. Round 5: role and user certificates that were valid at the TLS handshake and are presented after their expiry. Round 6: on the second-factor routes a second user's password-only cookie before/after the shape's own, with that user's valid TOTP code. Origins: null origin, null origin + same-site Referer, foreign Origin + same-site Referer.",
  "C07": " Added after seeding: second directory server down, case-twin accounts on every password entry point, disable_password_cache; the canonical state includes what the real rows say (subject, expiries, which candidate passwords the stored hash verifies). Round 5: tampering copies the victim's row in whichever store holds it; login as bob with alice's password. Round 6: BFS also from two non-initial states (ExploreFrom); expiry-column tampering in whichever store holds the row.",
  "C08": " Added after seeding: the canonical state of the admin-cache search includes the cache entry's real remaining lifetime; case-twin accounts of the administrator with normalisation disabled. Round 5: an administrator as the target of a non-administrator's operation. Round 6: part (c), bootstrap OTPs issued by the login path under {enable_bootstrapotp} x {allow_self_service} x {mail} x account shape x entry.",
  "C09": " Added after seeding: part (d), every subset and order of {own RSA CA key, own Ed25519 CA key, foreign key} pre-listed as known public keys; a deployment whose primary slot holds an Ed25519 key (never unsealable). Round 6: part (a) also in the state after a correct-passphrase injection that failed half-way; SSH certificate requests for RSA / EC / Ed25519 keys.",
  "C10": " Added after seeding: OpenSSH-certificate and sk-* blobs under re-tagged lines; every corrupted client-certificate address extension (C11 catalogue) signed by both trusted CAs on the certificate-taking routes; 18 truncated / odd Authorization header values on every route. Round 6: client certificates with P-224 / P-256 / Ed25519 / RSA-1024 / RSA-2048 keys from three issuing CAs on every route.",
- "C11": " Added after seeding: corrupted-extension handler probes under three certificate-method configurations; part C11S (controlled scheduler, engine vsched): simultaneous mint / refresh requests with scheduling points inside lib/certgen. Round 5: genuine IPv6 peers whose low 32 bits fall inside a block. Round 6: IPv4-unicast family next to families of another / no SAFI or length; refresh from inside an honoured block stays within the honoured blocks.",
- "C12": " Added after seeding: near-miss secrets (whitespace-only, trailing blank, one character short, case-folded). Round 5: ID token, authorization code and session cookie presented to userinfo; no user data in the body whatever the status. Round 6: three signer deployments (RSA, P-256 primary, RSA + Ed25519 CA).",
- "C13": " Added after seeding: label-boundary host family, double-encoded path segments and encoded delimiters; the emitted Location must carry no parent-directory segment and no client-supplied query; the client configurations written into a configuration file and loaded with the real loader. Round 5: redirect queries made of pairs net/url cannot parse. Round 6: clients whose patterns Go's regexp cannot compile, through the real loader.",
- "C14": " Added after seeding: part C14S (controlled scheduler, engine vsched): simultaneous TOTP and password guesses as threads, all interleavings with <= 2 (thorough 3) preemptions; part (c): configured burst/rate through a generated configuration file and the real loadVerifyConfigFile; the limiter's own mutex is a scheduling point in C14S. Round 6: one pass of the real clean-up loop and a four-failures macro as operations of the TOTP search.",
- "C15": " Added after seeding: outage ending inside the request (reads fail, writes succeed), fail-fast primary with the production read timeout, self-service bootstrap-OTP deployments with a recording mail sender; an error injected at every SQL operation of every write to the primary. Round 5: three users whose names differ only in case (profiles, signed records, listing, deletion, cache). Round 6: part (f), a 4 MB data set with faults during the synchronisation; databases opened through the repository's initFileDBSQLite.",
- "C16": " Added after seeding: two unseal injections racing each other and a reader of the CA material; one pass of the real background clean-up loop as a thread against all request kinds. Round 5: WebAuthn login finish as a request kind. The double-spend keys carry the race window of the minimal (one-preemption) witness. Round 6: Okta-backend scenarios (library lock shimmed, map probed).",
- "C17": " Added after seeding: tails that force URL re-serialisation, 9 non-printable Unicode runes, absolute URLs that start with this server's own origin text. Round 5: every redirect site under {host_identity configured, derived} x 5 request Host values. Round 6: 9 dot-segment heads x every prefix of length <= 2 x 4 bodies (exposed a genuine defect, fix 3f455b2). 25 encoded spellings of slash / backslash / TAB in 5 positions.",
- "C18": " Added after seeding: authority of an absolute-form request line, Host header, sessions whose user name is the payload; payloads that need no quote or bracket; the repository's own customisation templates (the failed-login page renders). Round 5: Origin / Referer values that are not parsable URLs; response headers judged as they went on the wire. Round 6: administrator session without hardware token.",
- "C19": " Added after seeding: an agent already holding foreign identities (one of an unparsable key type); leak detection over every key the client holds; part C19A: the `aws-role-cert` entry point (real generateAwsRoleCert, fake STS and keymaster servers). Round 5: an agent that fails the first removal request. Round 6: the client's log stream (debug level 5) is part of the leak corpus; Go byte-slice renderings decoded.",
+ "C11": " Added after seeding: corrupted-extension handler probes under three certificate-method configurations; part C11S (controlled scheduler, engine vsched): simultaneous mint / refresh requests with scheduling points inside lib/certgen. Round 5: genuine IPv6 peers whose low 32 bits fall inside a block. Round 6: IPv4-unicast family next to families of another / no SAFI or length; refresh from inside an honoured block stays within the honoured blocks. Round 7: certificates whose identity is an (automation) administrator, presented to the mint endpoint.",
+ "C12": " Added after seeding: near-miss secrets (whitespace-only, trailing blank, one character short, case-folded). Round 5: ID token, authorization code and session cookie presented to userinfo; no user data in the body whatever the status. Round 6: three signer deployments (RSA, P-256 primary, RSA + Ed25519 CA). Round 7: session names in the non-canonical form a federated login leaves.",
+ "C13": " Added after seeding: label-boundary host family, double-encoded path segments and encoded delimiters; the emitted Location must carry no parent-directory segment and no client-supplied query; the client configurations written into a configuration file and loaded with the real loader. Round 5: redirect queries made of pairs net/url cannot parse. Round 6: clients whose patterns Go's regexp cannot compile, through the real loader. Round 7: clients with own domains at the start / middle / end of the file.",
+ "C14": " Added after seeding: part C14S (controlled scheduler, engine vsched): simultaneous TOTP and password guesses as threads, all interleavings with <= 2 (thorough 3) preemptions; part (c): configured burst/rate through a generated configuration file and the real loadVerifyConfigFile; the limiter's own mutex is a scheduling point in C14S. Round 6: one pass of the real clean-up loop and a four-failures macro as operations of the TOTP search. Round 7: counting backend that answers with an error.",
+ "C15": " Added after seeding: outage ending inside the request (reads fail, writes succeed), fail-fast primary with the production read timeout, self-service bootstrap-OTP deployments with a recording mail sender; an error injected at every SQL operation of every write to the primary. Round 5: three users whose names differ only in case (profiles, signed records, listing, deletion, cache). Round 6: part (f), a 4 MB data set with faults during the synchronisation; databases opened through the repository's initFileDBSQLite. Round 7: getsigned operation against a model of the last write; search from a non-initial state.",
+ "C16": " Added after seeding: two unseal injections racing each other and a reader of the CA material; one pass of the real background clean-up loop as a thread against all request kinds. Round 5: WebAuthn login finish as a request kind. The double-spend keys carry the race window of the minimal (one-preemption) witness. Round 6: Okta-backend scenarios (library lock shimmed, map probed). Round 7: a saver served from the cache (primary read not answered); refused-undoer rule.",
+ "C17": " Added after seeding: tails that force URL re-serialisation, 9 non-printable Unicode runes, absolute URLs that start with this server's own origin text. Round 5: every redirect site under {host_identity configured, derived} x 5 request Host values. Round 6: 9 dot-segment heads x every prefix of length <= 2 x 4 bodies (exposed a genuine defect, fix 3f455b2). 25 encoded spellings of slash / backslash / TAB in 5 positions. Round 7: destination absent / empty x method x Referer x Origin.",
+ "C18": " Added after seeding: authority of an absolute-form request line, Host header, sessions whose user name is the payload; payloads that need no quote or bracket; the repository's own customisation templates (the failed-login page renders). Round 5: Origin / Referer values that are not parsable URLs; response headers judged as they went on the wire. Round 6: administrator session without hardware token. Round 7: well-formed benign values for the role-certificate and token endpoints.",
+ "C19": " Added after seeding: an agent already holding foreign identities (one of an unparsable key type); leak detection over every key the client holds; part C19A: the `aws-role-cert` entry point (real generateAwsRoleCert, fake STS and keymaster servers). Round 5: an agent that fails the first removal request. Round 6: the client's log stream (debug level 5) is part of the leak corpus; Go byte-slice renderings decoded. Round 7: agent-absent mode with foreign agents at 8 guessable socket paths.",
  "C20": " Added after seeding: differences between the real event loop and the recorder's functions are violations located in eventLoop; watchdog on every publication, mixed certificate/login long runs against stalled subscribers.",
 }
 
@@ -193,7 +193,7 @@ def main():
             {"name": "verifgen", "path": "tools/verifgen", "serves_properties": sorted(CHECKS), "kind_free_text": "AST rewriter: virtual-clock seam, authutil environment seams, scheduler shims/yield points/access probes, route-table extraction from main(); emits a go build overlay"},
             {"name": "vfeng", "path": "engine/vfeng", "serves_properties": sorted(CHECKS), "kind_free_text": "check frame: process sharding, result merge, known-findings matching, replay confirmation, evidence writer"},
             {"name": "vclock", "path": "engine/vclock", "serves_properties": sorted(CHECKS), "kind_free_text": "virtual clock with deterministic timers"},
-            {"name": "vsched", "path": "engine/vsched", "serves_properties": [p for p in sorted(CHECKS) if p in ("C09", "C11", "C14", "C16", "C20")], "kind_free_text": "controlled cooperative scheduler, preemption-bounded DFS over schedules, vector-clock race analysis"},
+            {"name": "vsched", "path": "engine/vsched", "serves_properties": [p for p in sorted(CHECKS) if p in ("C05", "C09", "C11", "C14", "C16", "C20")], "kind_free_text": "controlled cooperative scheduler, preemption-bounded DFS over schedules, vector-clock race analysis"},
         ],
         "checks": checks,
         "not_applicable": na,
